@@ -765,6 +765,9 @@ impl<'src> Lexer<'src> {
       self.token(Whitespace);
     } else if let Some(character) = self.next {
       return Err(self.error(InvalidEscapeSequence { character }));
+    } else {
+      // A backslash at the end of the file continues onto nothing
+      self.token(Whitespace);
     }
 
     Ok(())
